@@ -215,3 +215,66 @@ Lemma ex_nestable_s :
            [Some 0; Some 1; Some 1; Some 0; Some 1; Some 1; Some 0; Some 0];
            [Some 0; Some 1; Some 1; Some 0; Some 0; Some 1; Some 1; Some 0]] = false.
 Proof. repeat split; vm_compute; reflexivity. Qed.
+
+(** * Constraints of the Nest itself *)
+
+(** Nest(outer, inner, ks): the Nest's own constraints [ks] (already in normal form, over the factor
+    numbering of the Nest) apply to the whole sequence *)
+Definition nest_sem2_own (So Si : sem) (ks : list dconstraint) : sem :=
+  {| s_trials := s_trials (nest_sem2 So Si); s_factors := s_factors (nest_sem2 So Si);
+     s_crossings := s_crossings (nest_sem2 So Si); s_constraints := s_constraints (nest_sem2 So Si) ++ ks |}.
+
+Lemma factor_ok_shape : forall S1 S2 s f fd, s_trials S1 = s_trials S2 -> factor_ok S1 s f fd = factor_ok S2 s f fd.
+Proof. intros S1 S2 s f fd H. unfold factor_ok. rewrite H. reflexivity. Qed.
+
+Lemma chunks_ok_shape : forall S1 S2 s c fuel a, s_trials S1 = s_trials S2 -> chunks_ok fuel S1 s c a = chunks_ok fuel S2 s c a.
+Proof.
+  intros S1 S2 s c fuel. induction fuel as [|fuel IH]; intros a H; [reflexivity|].
+  cbn [chunks_ok]. rewrite H, (IH _ H). reflexivity.
+Qed.
+
+Lemma crossing_ok_shape : forall S1 S2 s c, s_trials S1 = s_trials S2 -> crossing_ok S1 s c = crossing_ok S2 s c.
+Proof. intros S1 S2 s c H. unfold crossing_ok. rewrite H, (chunks_ok_shape S1 S2 s c _ _ H). reflexivity. Qed.
+
+Lemma constraint_ok_shape : forall S1 S2 s c,
+  s_trials S1 = s_trials S2 -> s_factors S1 = s_factors S2 -> constraint_ok S1 s c = constraint_ok S2 s c.
+Proof. intros S1 S2 s c H1 H2. unfold constraint_ok, latin_ok. rewrite H1, H2. reflexivity. Qed.
+
+Lemma valid_b_own : forall So Si ks s,
+  valid_b (nest_sem2_own So Si ks) s
+  = valid_b (nest_sem2 So Si) s && forallb (constraint_ok (nest_sem2 So Si) s) ks.
+Proof.
+  intros So Si ks s. unfold valid_b.
+  change (s_factors (nest_sem2_own So Si ks)) with (s_factors (nest_sem2 So Si)).
+  change (s_crossings (nest_sem2_own So Si ks)) with (s_crossings (nest_sem2 So Si)).
+  change (s_constraints (nest_sem2_own So Si ks)) with (s_constraints (nest_sem2 So Si) ++ ks).
+  rewrite forallb_app, andb_assoc.
+  rewrite (forallb_ext_in (fun p => factor_ok (nest_sem2_own So Si ks) s (fst p) (snd p))
+                          (fun p => factor_ok (nest_sem2 So Si) s (fst p) (snd p)))
+    by (intros p _; apply factor_ok_shape; reflexivity).
+  rewrite (forallb_ext_in (crossing_ok (nest_sem2_own So Si ks) s) (crossing_ok (nest_sem2 So Si) s))
+    by (intros c _; apply crossing_ok_shape; reflexivity).
+  rewrite (forallb_ext_in (constraint_ok (nest_sem2_own So Si ks) s) (constraint_ok (nest_sem2 So Si) s) (s_constraints (nest_sem2 So Si)))
+    by (intros c _; apply constraint_ok_shape; reflexivity).
+  rewrite (forallb_ext_in (constraint_ok (nest_sem2_own So Si ks) s) (constraint_ok (nest_sem2 So Si) s) ks)
+    by (intros c _; apply constraint_ok_shape; reflexivity).
+  reflexivity.
+Qed.
+
+Theorem nest_groups_own : forall So Si ks s,
+  nestable_s_b So Si = true ->
+  (valid_b (nest_sem2_own So Si ks) s = true <->
+   groups_spec2 So Si s /\ forall k, In k ks -> constraint_ok (nest_sem2 So Si) s k = true).
+Proof.
+  intros So Si ks s Hg. rewrite valid_b_own, andb_true_iff, forallb_forall.
+  rewrite (nest_groups_s So Si s Hg). reflexivity.
+Qed.
+
+Definition groups2_own_b (So Si : sem) (ks : list dconstraint) (s : tseq) : bool :=
+  groups2_b So Si s && forallb (constraint_ok (nest_sem2 So Si) s) ks.
+
+Corollary nest_groups_own_b : forall So Si ks s,
+  nestable_s_b So Si = true -> valid_b (nest_sem2_own So Si ks) s = groups2_own_b So Si ks s.
+Proof.
+  intros So Si ks s Hg. rewrite valid_b_own. unfold groups2_own_b. rewrite (nest_groups_s_b So Si s Hg). reflexivity.
+Qed.
